@@ -2,6 +2,7 @@ package c
 
 import (
 	"bytes"
+	"errors"
 
 	"verifh/nd"
 
@@ -201,18 +202,18 @@ func H_C13_Limits() {
 	switch nd.IntRange(0, 4) {
 	case 0:
 		_, err := base32.EncodeToStringSafe(make([]byte, maxEnc+d))
-		nd.Assert((err == nil) == (d <= 0), "b32/encode-limit-exact")
+		nd.Assert((err == nil) == (d <= 0) && errors.Is(err, base32.ErrDataTooLarge) == (d > 0), "b32/encode-limit-exact")
 	case 1:
 		_, err := base64.EncodeToStringSafe(make([]byte, maxEnc+d))
-		nd.Assert((err == nil) == (d <= 0), "b64/encode-limit-exact")
+		nd.Assert((err == nil) == (d <= 0) && errors.Is(err, base64.ErrDataTooLarge) == (d > 0), "b64/encode-limit-exact")
 	case 2:
 		_, err := base32.DecodeStringSafe(string(make([]byte, maxDec32+d)))
-		nd.Assert((err != nil && !nd.Called("base32.DecodeString")) == (d > 0), "b32/decode-limit-exact")
+		nd.Assert(errors.Is(err, base32.ErrInputTooLarge) == (d > 0), "b32/decode-limit-exact")
 	case 3:
 		_, err := base32.DecodeStringSafeNoPadding(string(make([]byte, maxDec32+d)))
-		nd.Assert((err != nil && !nd.Called("base32.DecodeString")) == (d > 0), "b32/decode-nopad-limit-exact")
+		nd.Assert(errors.Is(err, base32.ErrInputTooLarge) == (d > 0), "b32/decode-nopad-limit-exact")
 	case 4:
 		_, err := base64.DecodeStringSafe(string(make([]byte, maxDec64+d)))
-		nd.Assert((err != nil && !nd.Called("base64.DecodeString")) == (d > 0), "b64/decode-limit-exact")
+		nd.Assert(errors.Is(err, base64.ErrStringTooLarge) == (d > 0), "b64/decode-limit-exact")
 	}
 }
